@@ -1,6 +1,7 @@
 package rules
 
 import (
+	"sort"
 	"go/token"
 	"go/types"
 	"strings"
@@ -47,7 +48,10 @@ func (s verdictState) String() string {
 }
 
 // operand kinds of the verdict's comparisons
-func verdictOperand(v ssa.Value, recv string) string {
+// verdictOperand names what a comparison operand is. tr maps values of an expanded helper's frame to the frame of
+// Result.Failed (nil for operands of Result.Failed itself): the access path is described with the helper's
+// parameter replaced by the argument it was called with.
+func verdictOperand(v ssa.Value, recv string, tr func(ssa.Value) ssa.Value) string {
 	v = an.Strip(v)
 	if k, ok := v.(*ssa.Const); ok {
 		if k.IsNil() {
@@ -62,6 +66,30 @@ func verdictOperand(v ssa.Value, recv string) string {
 		return "CONST"
 	}
 	d := an.D().Of(v)
+	if tr != nil {
+		// base of the access path
+		base := v
+		for i := 0; i < 10; i++ {
+			switch x := base.(type) {
+			case *ssa.FieldAddr:
+				base = an.Strip(x.X)
+				continue
+			case *ssa.Field:
+				base = an.Strip(x.X)
+				continue
+			case *ssa.UnOp:
+				base = an.Strip(x.X)
+				continue
+			}
+			break
+		}
+		if p, ok := base.(*ssa.Parameter); ok {
+			if a := tr(p); a != ssa.Value(p) {
+				ad := strings.TrimPrefix(an.D().Of(a), "&")
+				d = strings.Replace(d, "$"+p.Name(), ad, 1)
+			}
+		}
+	}
 	switch {
 	case strings.HasSuffix(d, ".Error("+recv+")"):
 		return "ERR"
@@ -82,7 +110,7 @@ func verdictOperand(v ssa.Value, recv string) string {
 var flipOp = map[token.Token]token.Token{token.GTR: token.LSS, token.LSS: token.GTR, token.GEQ: token.LEQ, token.LEQ: token.GEQ, token.EQL: token.EQL, token.NEQ: token.NEQ}
 
 // classifyVerdictAtom maps a branch condition to a predicate over verdictState.
-func classifyVerdictAtom(cond ssa.Value, recv string, shareFn func(*ssa.Call) bool) (func(verdictState) bool, string) {
+func classifyVerdictAtom(cond ssa.Value, recv string, shareFn func(*ssa.Call) bool, tr func(ssa.Value) ssa.Value) (func(verdictState) bool, string) {
 	cond = an.Strip(cond)
 	if call, ok := cond.(*ssa.Call); ok {
 		if shareFn(call) {
@@ -92,12 +120,12 @@ func classifyVerdictAtom(cond ssa.Value, recv string, shareFn func(*ssa.Call) bo
 	}
 	bo, ok := cond.(*ssa.BinOp)
 	if !ok {
-		if verdictOperand(cond, recv) == "IGN" {
+		if verdictOperand(cond, recv, tr) == "IGN" {
 			return func(s verdictState) bool { return s.I }, ""
 		}
 		return nil, "condition " + an.D().Of(cond) + " is not a comparison"
 	}
-	a, b, op := verdictOperand(bo.X, recv), verdictOperand(bo.Y, recv), bo.Op
+	a, b, op := verdictOperand(bo.X, recv, tr), verdictOperand(bo.Y, recv, tr), bo.Op
 	if a == "ZERO" || a == "NIL" || a == "ONE" || (a == "MF" && b == "FAILED") {
 		a, b, op = b, a, flipOp[op]
 	}
@@ -193,7 +221,17 @@ func c08(c *core.Ctx, r *core.Report) {
 	}
 
 	rule(r, "C08.R1", "truth table of Result.Failed() = err ∨ (¬ignoreDropped ∧ dropped>0) ∨ (maxFailures=0 ∧ maxFailuresRate=0 ∧ failed>0) ∨ (maxFailures>0 ∧ failed>maxFailures) ∨ (maxFailuresRate>0 ∧ share>rate), over all consistent orderings", func() {
-		paths, err := an.DecisionPaths(failedFn, 4096)
+		// bool helpers of the run package are expanded into their own comparisons (the share predicate of the progress
+		// package and Result.Error stay atoms)
+		expandable := func(t *ssa.Function) bool {
+			if t == nil || t.Blocks == nil || core.RelPkg(t) != "internal/run" || isMethod(t, runPkg, "Result", "Error") || t.Signature.Results().Len() != 1 {
+				return false
+			}
+			b, ok := t.Signature.Results().At(0).Type().Underlying().(*types.Basic)
+			return ok && b.Kind() == types.Bool
+		}
+		stopExpand := func(t *ssa.Function) bool { return !expandable(t) }
+		paths, err := an.DecisionPathsInl(failedFn, 4096, 2, stopExpand)
 		if err != nil {
 			r.Undecided("Result.Failed#paths", c.Pos(failedFn.Pos()), "%v", err)
 			return
@@ -207,7 +245,7 @@ func c08(c *core.Ctx, r *core.Report) {
 					return
 				}
 				if call, ok := x.(*ssa.Call); ok {
-					if t := an.Callee(call); t != nil && (isMethod(t, runPkg, "Result", "Error") || isShare(call)) {
+					if t := an.Callee(call); t != nil && (isMethod(t, runPkg, "Result", "Error") || isShare(call) || expandable(t)) {
 						return
 					}
 				}
@@ -228,12 +266,12 @@ func c08(c *core.Ctx, r *core.Report) {
 			why string
 		}
 		cache := map[ssa.Value]atomT{}
-		classify := func(v ssa.Value) atomT {
-			v = an.Strip(v)
+		classify := func(l an.Lit) atomT {
+			v := an.Strip(l.Cond)
 			if a, ok := cache[v]; ok {
 				return a
 			}
-			f, why := classifyVerdictAtom(v, recv, isShare)
+			f, why := classifyVerdictAtom(v, recv, isShare, l.Tr)
 			cache[v] = atomT{f, why}
 			return cache[v]
 		}
@@ -258,7 +296,7 @@ func c08(c *core.Ctx, r *core.Report) {
 											}
 											ok := true
 											for _, l := range p.Lits {
-												a := classify(l.Cond)
+												a := classify(l)
 												if a.f == nil {
 													r.Violation("Result.Failed#atom", an.Pos(c, l.If), "%s", a.why)
 													return
@@ -279,12 +317,26 @@ func c08(c *core.Ctx, r *core.Report) {
 											if k, isK := res.(*ssa.Const); isK && k.Value != nil {
 												val = k.Value.String() == "true"
 											} else {
-												a := classify(res)
-												if a.f == nil {
-													r.Undecided("Result.Failed#result", an.Pos(c, p.Ret), "result %s on a path is not a constant or a known atom: %s", an.D().Of(res), a.why)
-													return
+												// the result is a condition (or a bool helper's result): true iff one of its
+												// alternatives holds in this state
+												for _, alt := range an.ExpandLit(an.Lit{Cond: res, Val: true}, 2, stopExpand) {
+													all := true
+													for _, al := range alt {
+														a := classify(al)
+														if a.f == nil {
+															r.Undecided("Result.Failed#result", an.Pos(c, p.Ret), "result %s on a path is not a constant or a known atom: %s", an.D().Of(res), a.why)
+															return
+														}
+														if a.f(st) != al.Val {
+															all = false
+															break
+														}
+													}
+													if all {
+														val = true
+														break
+													}
 												}
-												val = a.f(st)
 											}
 											got = &val
 											break
@@ -361,6 +413,10 @@ func c08(c *core.Ctx, r *core.Report) {
 		key := core.FuncName(shareFn)
 		// arguments at the call site
 		recvD := an.D().Of(shareCall.Call.Args[0])
+		for _, e := range an.FlatCalls(failedFn, 2, func(call ssa.CallInstruction, _ *ssa.Function) bool { return call == ssa.CallInstruction(shareCall) }) {
+			// the call sits in a helper of Result.Failed: its receiver seen from Result.Failed
+			recvD = strings.TrimPrefix(an.D().Of(an.EventFV(e, shareCall.Call.Args[0]).Resolve(nil).V), "&")
+		}
 		r.Check(strings.HasSuffix(recvD, ".snapshot"), key+"#receiver", an.Pos(c, shareCall), "evaluated on the result's snapshot", "share evaluated on "+recvD)
 		rateD := an.D().Of(shareCall.Call.Args[len(shareCall.Call.Args)-1])
 		r.Check(strings.HasSuffix(rateD, ".MaxFailuresRate"), key+"#rate-arg", an.Pos(c, shareCall), "rate argument is "+rateD, "the rate handed to the share predicate is "+rateD+", not the max-failures-rate option")
@@ -552,9 +608,19 @@ func c08(c *core.Ctx, r *core.Report) {
 			}
 			if k, ok := p.OnPath(an.Strip(p.Ret.Results[0])).(*ssa.Const); ok && k.IsNil() {
 				for _, l := range p.Lits {
-					d := an.D().Of(l.Cond)
-					if strings.Contains(d, ".errors") && l.Val {
-						okNil = true
+					// "the set of recorded errors is nil / empty", the set being the []error field of Result
+					bo, isBin := an.Strip(l.Cond).(*ssa.BinOp)
+					if !isBin || bo.Op != token.EQL || !l.Val {
+						continue
+					}
+					x := an.Strip(bo.X)
+					if call, isCall := x.(*ssa.Call); isCall && an.IsBuiltinCall(call, "len") {
+						x = an.Strip(call.Call.Args[0])
+					}
+					if fld, owner := an.TerminalField(x); fld != nil && an.IsNamed(owner, runPkg, "Result") {
+						if sl, isSl := fld.Type().Underlying().(*types.Slice); isSl && types.Identical(sl.Elem(), types.Universe.Lookup("error").Type()) {
+							okNil = true
+						}
 					}
 				}
 				if len(p.Lits) == 0 {
@@ -641,14 +707,19 @@ func runOptionSources(c *core.Ctx, r *core.Report, names []string) {
 	if lit == nil {
 		panic(core.AnchorError{What: "RunOptions literal handed to NewRun"})
 	}
-	fields := an.LiteralFields(lit)
+	fields := an.LiteralFieldStores(lit)
 	for _, f := range names {
-		v, ok := fields[f]
+		vs, ok := fields[f]
 		if !ok {
 			r.Violation(core.FuncName(where)+"#"+f, c.Pos(lit.Pos()), "RunOptions.%s is never set", f)
 			continue
 		}
-		d := an.D().Of(v)
+		var ds []string
+		for _, v := range vs {
+			ds = append(ds, an.D().Of(v))
+		}
+		sort.Strings(ds)
+		d := strings.Join(ds, " | ")
 		okCfg := strings.Contains(d, ".Options."+f)
 		okFlag := strings.Contains(d, "\""+kebab(f)+"\"")
 		r.Check(okCfg && okFlag, core.FuncName(where)+"#"+f, c.Pos(lit.Pos()), f+" ← "+d, "RunOptions."+f+" is fed from "+d+": expected the config option Options."+f+" and the flag --"+kebab(f))
